@@ -3,7 +3,7 @@
    statement ClickHouse (as modelled) rejects in file order, or one that is not re-executable right after
    itself makes gen_reexec fail; checks/c18.py then asks first_bad_streams for the witness. *)
 From Coq Require Import List String NArith ZArith Bool Arith Lia.
-From Qryn Require Import model.Migrate proofs.MigrateProofs gen.GenScripts.
+From Qryn Require Import model.Migrate proofs.MigrateProofs proofs.MigrateClusterProofs gen.GenScripts.
 Import ListNotations.
 Open Scope nat_scope.
 
@@ -24,31 +24,64 @@ Lemma gen_sids_parallel :
   forallb (fun k => List.length (gen_sids k) =? List.length (gen_scripts k)) all_streams = true.
 Proof. vm_compute. reflexivity. Qed.
 
-Definition ch_multi (c : cfg) := multi_run cat stmt (exec_ch (cloud c)) gen_scripts c.
+(* the ON CLUSTER table is parallel to the statement lists *)
+Lemma gen_oncl_len k : List.length (gen_oncluster k) = List.length (gen_scripts k).
+Proof. destruct k; vm_compute; reflexivity. Qed.
+Lemma cl_scripts_len c k : List.length (cl_scripts gen_scripts gen_oncluster c k) = List.length (gen_scripts k).
+Proof. unfold cl_scripts. rewrite map_length, combine_length, gen_oncl_len. apply Nat.min_id. Qed.
 
-Lemma gen_converges : forall (c : cfg) (runs : list (list outcome)),
-  let d := fst (ch_multi c runs (db0 cat cat0)) in
-  let r := ch_update gen_scripts c [] d in
+(* ---- the cluster: per host, along the uninterrupted run of every configuration, the connected host accepts
+   every statement and any other host every ON CLUSTER statement, and each is re-executable right after itself
+   on that host without changing its catalogue *)
+Lemma gen_cl_reexec : forall c : cfg,
+  cl_reexec_streams cat stmt (exec_ch (cloud c)) cat_eqb (cl_scripts gen_scripts gen_oncluster c) (streams_of c) cat0 cat0 = true.
+Proof. intros [[] [] []]; vm_compute; reflexivity. Qed.
+
+(* the model the harness is compared with: 1 + n hosts, statements that complete on some hosts only *)
+Definition cl_multi (c : cfg) :=
+  multi_run (ccat cat) (cstmt stmt) (cl_exec cat stmt (exec_ch (cloud c))) (cl_pexec cat stmt (exec_ch (cloud c)))
+            (cl_scripts gen_scripts gen_oncluster c) c.
+
+Lemma gen_converges : forall (c : cfg) (n : nat) (runs : list (list outcome)),
+  let d := fst (cl_multi c runs (db0 (ccat cat) (hosts0 (S n)))) in
+  let r := ch_update gen_scripts gen_oncluster c [] d in
   r_ok r = true /\
-  d_cat (r_db r) = d_cat (expected_final gen_scripts c) /\
+  d_cat (r_db r) = d_cat (expected_final gen_scripts gen_oncluster c (S n)) /\
   (forall k, In k (streams_of c) -> d_vers (r_db r) k = List.length (gen_scripts k)) /\
   (* ... and starting it once more executes no script statement *)
-  (forall os, filter is_script_event (r_log (ch_update gen_scripts c os (r_db r))) = []).
+  (forall os, filter is_script_event (r_log (ch_update gen_scripts gen_oncluster c os (r_db r))) = []).
 Proof.
-  intros c runs d r.
-  destruct (converges cat stmt (exec_ch (cloud c)) gen_scripts cat_eqb cat_eqb_sound c cat0 runs (gen_reexec c))
-    as (Hok & Hcat & Hv).
-  destruct (converges cat stmt (exec_ch (cloud c)) gen_scripts cat_eqb cat_eqb_sound c cat0 [] (gen_reexec c))
-    as (_ & Hcat0 & _).
-  fold (ch_multi c runs (db0 cat cat0)) in Hok, Hcat, Hv. fold d in Hok, Hcat, Hv.
-  change (update cat stmt (exec_ch (cloud c)) gen_scripts c [] d) with r in Hok, Hcat, Hv.
-  split; [exact Hok|]. split; [|split; [exact Hv|]].
-  - cbn [multi_run fst] in Hcat0. unfold expected_final, ch_update. congruence.
+  intros c n runs d r.
+  destruct (cl_converges cat stmt (exec_ch (cloud c)) cat_eqb cat_eqb_sound (cl_scripts gen_scripts gen_oncluster c)
+              c cat0 cat0 n runs (gen_cl_reexec c)) as (Hok & (a & b & Htr & Hcat) & Hv).
+  destruct (cl_converges cat stmt (exec_ch (cloud c)) cat_eqb cat_eqb_sound (cl_scripts gen_scripts gen_oncluster c)
+              c cat0 cat0 n [] (gen_cl_reexec c)) as (_ & (a' & b' & Htr' & Hcat') & _).
+  change (cat0 :: repeat cat0 n) with (hosts0 (S n)) in Hok, Hcat, Hv, Hcat'.
+  fold (cl_multi c runs (db0 (ccat cat) (hosts0 (S n)))) in Hok, Hcat, Hv. fold d in Hok, Hcat, Hv.
+  change (update (ccat cat) (cstmt stmt) (cl_exec cat stmt (exec_ch (cloud c))) (cl_pexec cat stmt (exec_ch (cloud c)))
+            (cl_scripts gen_scripts gen_oncluster c) c [] d) with r in Hok, Hcat, Hv.
+  assert (Hv' : forall k, In k (streams_of c) -> d_vers (r_db r) k = List.length (gen_scripts k)).
+  { intros k Hk. rewrite (Hv k Hk). apply cl_scripts_len. }
+  split; [exact Hok|]. split; [|split; [exact Hv'|]].
+  - cbn [multi_run fst] in Hcat'. unfold expected_final, ch_update. rewrite Hcat, Hcat'. congruence.
   - intros os.
-    destruct (run_streams_noop cat stmt (exec_ch (cloud c)) gen_scripts c (streams_of c) os (r_db r)) as (_ & _ & Hns & _).
+    destruct (run_streams_noop (ccat cat) (cstmt stmt) (cl_exec cat stmt (exec_ch (cloud c))) (cl_pexec cat stmt (exec_ch (cloud c)))
+                (cl_scripts gen_scripts gen_oncluster c) c (streams_of c) os (r_db r)) as (_ & _ & Hns & _).
     + intros k Hk. rewrite (Hv k Hk). lia.
     + exact Hns.
 Qed.
+
+(* what the hosts end with: the connected host exactly where the one-server model ends (it runs every
+   statement); on a configured cluster the other hosts end elsewhere -- statements without {{.OnCluster}}
+   (the type_v2 ALIAS columns, the settings rows) never reach them *)
+Definition hosts_final_ok (c : cfg) : bool :=
+  match cl_track_streams cat stmt (exec_ch (cloud c)) (cl_scripts gen_scripts gen_oncluster c) (streams_of c) cat0 cat0,
+        apply_streams cat stmt (exec_ch (cloud c)) gen_scripts (streams_of c) cat0 with
+  | Some (a, b), Some a' => cat_eqb a a' && negb (cat_eqb a b)
+  | _, _ => false
+  end.
+Lemma gen_hosts_final : forall c : cfg, hosts_final_ok c = true.
+Proof. intros [[] [] []]; vm_compute; reflexivity. Qed.
 
 (* ---- the premise of `converges` is necessary: the shape of the statements this check found in log.sql
    (RENAME TABLE without IF EXISTS after the object was created) does not converge *)
@@ -64,7 +97,7 @@ Definition old_shape (k : stream) : list stmt :=
 Definition cfg_single := {| cloud := false; dist := false; clustered := false |}.
 (* calls of a single-node run: 0 create ver, 1 read, 2 script0, 3 ver, 4 script1, 5 ver, 6 script2 (the RENAME) *)
 Definition old_shape_stuck : bool :=
-  let upd := update cat stmt (exec_ch false) old_shape cfg_single in
+  let upd := update cat stmt (exec_ch false) pexec_one old_shape cfg_single in
   let d1 := r_db (upd (fault_at 6 OAfter) (db0 cat cat0)) in
   let r2 := upd [] d1 in
   let r3 := upd [] (r_db r2) in
@@ -72,7 +105,7 @@ Definition old_shape_stuck : bool :=
 Lemma old_shape_does_not_converge : old_shape_stuck = true.
 Proof. vm_compute. reflexivity. Qed.
 Lemma old_shape_clean_run_ok :
-  r_ok (update cat stmt (exec_ch false) old_shape cfg_single [] (db0 cat cat0)) = true.
+  r_ok (update cat stmt (exec_ch false) pexec_one old_shape cfg_single [] (db0 cat cat0)) = true.
 Proof. vm_compute. reflexivity. Qed.
 
 (* ---- the observation oracle (statements identified by id) never rejects a log of the model *)
@@ -84,17 +117,41 @@ Proof.
   assert (Hall : forallb (fun s => negb (N.eqb s 0)) (gen_sids k) = true) by (destruct k; vm_compute; reflexivity).
   rewrite forallb_forall in Hall. specialize (Hall _ HIn). apply negb_true_iff in Hall. now apply N.eqb_neq.
 Qed.
-Lemma gen_oracle_accepts : forall (c : cfg) (runs : list (list outcome)),
-  omon_ok gen_sids (map (abs_event gen_sids) (snd (ch_multi c runs (db0 cat cat0)))) = true.
+Lemma cl_sids_len c k : List.length (gen_sids k) = List.length (cl_scripts gen_scripts gen_oncluster c k).
+Proof. now rewrite cl_scripts_len, gen_sids_len. Qed.
+Lemma gen_oracle_accepts : forall (c : cfg) (hs : ccat cat) (runs : list (list outcome)),
+  omon_ok gen_sids (map (abs_event gen_sids) (snd (cl_multi c runs (db0 (ccat cat) hs)))) = true.
 Proof.
-  intros c runs.
-  exact (oracle_accepts_model_logs cat stmt (exec_ch (cloud c)) gen_scripts gen_sids gen_sids_len gen_sids_nonzero c runs cat0).
+  intros c hs runs.
+  exact (oracle_accepts_model_logs (ccat cat) (cstmt stmt) (cl_exec cat stmt (exec_ch (cloud c))) (cl_pexec cat stmt (exec_ch (cloud c)))
+           (cl_scripts gen_scripts gen_oncluster c) gen_sids (cl_sids_len c) gen_sids_nonzero c runs hs).
 Qed.
+
+(* ---- the cluster needs the guards as well: the pre-fix RENAME, sent ON CLUSTER to two hosts, completes on
+   the connected host only (the other one is down); every later undisturbed start fails there *)
+Definition old_shape_cl (k : stream) : list (cstmt stmt) := map (fun s => (true, s)) (old_shape k).
+Definition cfg_clustered := {| cloud := false; dist := true; clustered := true |}.
+(* calls: 0 create ver, 1 create ver_dist, 2 read, 3 script0, 4 ver, 5 script1, 6 ver, 7 script2 (the RENAME) *)
+Definition old_shape_cl_stuck : bool :=
+  let upd := update (ccat cat) (cstmt stmt) (cl_exec cat stmt (exec_ch false)) (cl_pexec cat stmt (exec_ch false)) old_shape_cl cfg_clustered in
+  let d1 := r_db (upd (fault_at 7 (OPartial [false; true])) (db0 (ccat cat) (hosts0 2))) in
+  let r2 := upd [] d1 in
+  let r3 := upd [] (r_db r2) in
+  negb (r_ok r2) && negb (r_ok r3) && (d_vers (r_db r3) SLog =? 2).
+Lemma old_shape_cl_does_not_converge : old_shape_cl_stuck = true.
+Proof. vm_compute. reflexivity. Qed.
+
+(* a version written after a statement that completed on some hosts only is rejected by the monitor (what
+   the seeded change C18-a does: distributed_ddl_task_timeout taken as success) *)
+Lemma partial_then_recorded_rejected :
+  mon_ok [EScript SLog 0 (RFPartial); EInsVer SLog 1 ROk] = false /\
+  mon_ok [EScript SLog 0 (RFPartial); EScript SLog 0 ROk; EInsVer SLog 1 ROk] = true.
+Proof. vm_compute. split; reflexivity. Qed.
 
 (* the hypothesis of noop_when_current is met by a non-trivial database: the one an uninterrupted run of
    the clustered, replicated configuration (all six streams, 75 statements) ends with *)
 Example noop_hypothesis_met :
   let c := {| cloud := true; dist := true; clustered := true |} in
-  forallb (fun k => List.length (gen_scripts k) <=? d_vers (expected_final gen_scripts c) k) (streams_of c) = true
-  /\ List.length (c_objs (d_cat (expected_final gen_scripts c))) = 38.
+  forallb (fun k => List.length (gen_scripts k) <=? d_vers (expected_final gen_scripts gen_oncluster c 3) k) (streams_of c) = true
+  /\ map (fun h => List.length (c_objs h)) (d_cat (expected_final gen_scripts gen_oncluster c 3)) = [38; 38; 38].
 Proof. vm_compute. split; reflexivity. Qed.
